@@ -27,7 +27,9 @@ RULE = ("(a) retry loop through a harness TreeBuilder whose prepare_markup yield
         "text and in attribute values), every truncation of 16 constructs (tags, comments, declarations, marked "
         "sections, processing instructions, CDATA, references) alone and followed by 4 continuations, as str and as "
         "UTF-8/UTF-16 bytes, seeded token soup with lone surrogates / NULs / byte mutations / BOMs / declared charsets "
-        "(bogus, python-specific, with NUL) x from_encoding x exclude_encodings from a 45-name list; (c) the two "
+        "(bogus, python-specific, with NUL) x from_encoding x exclude_encodings from a 45-name list, and the nothing-usable class: both "
+        "fall-back encodings excluded (5 spellings / containers) x 12 bodies (BOMs, declared charsets, references) x 11 from_encoding values "
+        "(excluded, unknown, non-text, NUL, ascii); (c) the two "
         "heuristics on every string of <=3 symbols over a 14-symbol alphabet (extensions, ':', '/', ' ', 'http:', a lone "
         "surrogate, NUL, non-ASCII) as str and bytes, and around the 256 threshold. Nesting depth stays below 60 "
         "(deep documents are C11's subject). Non-trivial: the retry case has a non-empty rejected prefix / the input "
@@ -292,7 +294,7 @@ def retry_cases(ctx):
     # k = 2, 3: samples
     from props import c03 as C3  # the C03 alphabet for longer random sequences
     big = C3.ALPHA + C3.EXTRA
-    for k, n in ((2, 20000 if ctx.thorough else 2500), (3, 20000 if ctx.thorough else 1500)):
+    for k, n in ((2, 20000 if ctx.thorough else 2000), (3, 20000 if ctx.thorough else 1200)):
         for _ in range(n):
             plan = [(rng.choice(METAS), 1, rng.choice(prefixes), "r%d" % i) for i in range(k)]
             plan.append((rng.choice(METAS), 0, rng.choice(PROBES), ""))
@@ -570,7 +572,21 @@ def hostile_case(ctx, markup, kw, cmds, pending, tag=None):
     ctx.count("outcome_" + ("ok" if soup is not None else exc_class(err)))
     if not ctx.build.model_ok:
         return
-    # ---- recorded inputs of the model
+    # ---- recorded inputs of the model, and the two oracles that need them.  The implementation's objects are read here
+    # (UnicodeDammit's attributes, the returned tree): a change that breaks them must surface as a finding, never as a harness error.
+    try:
+        record_for_model(ctx, case, markup, kw, soup, err, wkinds, cmds, pending, tag)
+    except Exception as e:
+        ctx.count("recording_failed")
+        what = "%s: %s" % (type(e).__name__, str(e)[:120])
+        if err is None or isinstance(err, ParserRejectedMarkup):
+            # the constructor looked fine but its collaborators cannot be inspected: the tie is broken on this input
+            ctx.disagree("recording the model's inputs (UnicodeDammit result / callbacks / codec table) raised", case, what, None)
+        else:
+            ctx.notes.append("model inputs could not be recorded for a failing case (%s)" % what) if len(ctx.notes) < 5 else None
+
+
+def record_for_model(ctx, case, markup, kw, soup, err, wkinds, cmds, pending, tag):
     fe = kw.get("from_encoding")
     if isinstance(markup, str):
         text, dm, orig = markup, [], None
@@ -582,6 +598,12 @@ def hostile_case(ctx, markup, kw, cmds, pending, tag=None):
                                   exclude_encodings=kw.get("exclude_encodings"))
         except Exception as e:
             return      # UnicodeDammit itself failed: reported above through the constructor
+        missing = [a for a in ("unicode_markup", "original_encoding", "contains_replacement_characters") if not hasattr(d, a)]
+        if missing:
+            ctx.fail(case, "UnicodeDammit finished without setting %s (prepare_markup reads it)" % ", ".join(missing),
+                     exc_class(err) if err is not None else "constructor returned", "an attribute holding text or None",
+                     tag=tag or "dammit-incomplete")
+            return
         text = d.unicode_markup
         if text is None:
             dm, orig = [], None
@@ -606,7 +628,6 @@ def hostile_case(ctx, markup, kw, cmds, pending, tag=None):
         ctx.fail(case, "an object was returned although the input could not be converted to text at all", ascii(soup.decode())[:60],
                  "ParserRejectedMarkup", tag=tag or "undecodable-accepted")
     m_in = [0, markup] if isinstance(markup, str) else [1, markup]
-    cmds.append([6003, T.enc_cfg(CFG), m_in, dm, table, cbs, fin])
     if soup is not None:
         try:
             impl = ("ok", full_dump(soup))
@@ -615,6 +636,7 @@ def hostile_case(ctx, markup, kw, cmds, pending, tag=None):
             impl = ("raise", "uninspectable")
     else:
         impl = ("raise", exc_class(err))
+    cmds.append([6003, T.enc_cfg(CFG), m_in, dm, table, cbs, fin])
     pending.append((case, impl, wkinds, True))
 
 
@@ -747,6 +769,32 @@ def hostile_inputs(ctx):
     for m, kw, fid in corpus:
         go(m, kw, tag=fid)
     ctx.count("corpus", len(corpus))
+    # nothing usable: both fall-backs (utf-8, windows-1252) excluded, in any spelling / container, and every other candidate
+    # (from_encoding, BOM, declared charset) excluded, unknown, not a text codec, or unable to decode the bytes.  The only
+    # admissible outcome is ParserRejectedMarkup.
+    n_nu = 0
+    excl_sets = [["utf-8", "windows-1252"], ("UTF-8", "Windows-1252"), ["Utf-8", "WINDOWS-1252", "ascii"],
+                 ["utf-8", "windows-1252", "utf-16le", "utf-16be", "utf-32le", "utf-32be", "latin-1", "iso-8859-1"],
+                 ("windows-1252", "utf-8", "bogus", "")]
+    bodies = [b"<p>x</p>", b"<p>\xe9</p>", b"", b"\xef\xbb\xbf<p>x</p>", b"\xff\xfe<\x00p\x00>\x00", b"\xfe\xff\x00<\x00p\x00>",
+              b"<meta charset='utf-8'><p>\xc3\xa9</p>", b"<meta charset='windows-1252'>\x93x\x94", b"<meta charset='bogus'>x",
+              b"<?xml version='1.0' encoding='UTF-8'?><a/>", b"&#65;&#200;<b>", b"\x00\x00\xfe\xff\x00\x00\x00<"]
+    for ex in excl_sets:
+        lowered = {e.lower() for e in ex}
+        for body in bodies:
+            for fe in (None, "utf-8", "UTF-8", "windows-1252", "bogus", "rot13", "hex", "undefined", "a\x00b", "ascii", ""):
+                if fe == "ascii" and (all(c < 0x80 for c in body) and "ascii" not in lowered):
+                    continue                      # ascii could decode this body: not a nothing-usable configuration
+                if body[:2] in (b"\xff\xfe", b"\xfe\xff") or body[:4] == b"\x00\x00\xfe\xff":
+                    if not ({"utf-16le", "utf-16be", "utf-32be"} <= lowered):
+                        continue                  # the BOM's encoding is still a candidate
+                if rng.random() < (1.0 if ctx.thorough else 0.45) or n_nu < 12:
+                    kw = {"exclude_encodings": ex}
+                    if fe is not None:
+                        kw["from_encoding"] = fe
+                    go(body, kw, tag="nothing-usable")
+                    n_nu += 1
+    ctx.count("nothing_usable", n_nu)
     # numeric references
     docs = charref_docs()
     for dct in docs:
@@ -792,7 +840,7 @@ def hostile_inputs(ctx):
     if bad_codecs:
         ctx.notes.append("codecs raising something other than UnicodeDecodeError/LookupError on a single byte: %s" % bad_codecs[:8])
     # token soup
-    for it in range(120000 if ctx.thorough else 4500):
+    for it in range(120000 if ctx.thorough else 3600):
         s = gen_token_soup(rng)
         kw = {}
         if rng.random() < 0.5:
